@@ -229,6 +229,16 @@ func ClampExp(e int) int {
 // Finite returns a random finite operand.
 func (r *RNG) Finite() ref.Bits {
 	c, _ := r.Coef()
+	if r.Chance(1, 8) {
+		// exponent aligned with the coefficient length: the decimal point sits right before, right after or
+		// inside the digits (magnitudes around one, where integer/fraction splits and digit-count tables matter)
+		nd := ref.NumDigits(c)
+		e := -r.Pick(nd, nd-1, nd+1, nd-2, r.Range(0, nd+2))
+		if e > 0 {
+			e = 0
+		}
+		return ref.Encode(r.Bool(), c, e)
+	}
 	return ref.Encode(r.Bool(), c, r.Exp())
 }
 
